@@ -1264,7 +1264,11 @@ package ring
 //@   let n = r.SubRings[L].N
 //@   requires 2 < qL && qL < 1<<61 && n % 8 == 0 && 16 <= n
 //@   requires len(p0.Coeffs[L]) == n && len(buff.Coeffs[0]) == n && len(buff.Coeffs[1]) == n && disjoint(buff.Coeffs[0], p0.Coeffs[L]) && disjoint(buff.Coeffs[0], buff.Coeffs[1])
+//@   requires forall(j, 0, r.level, disjoint(p1.Coeffs[j], buff.Coeffs[0]))
 //@   assigns buff.Coeffs[0]
+// FLOORED (property C02): what is subtracted from the input is the last row brought back to coefficients as the
+// CANONICAL residue x mod q_L - a representative q_L too large makes the quotient one too small (finding F56)
+//@   ensures forall(k, 0, n, buff.Coeffs[0][k] == inttval(mem, p0.Coeffs[L], r.SubRings[L].RootsBackward, n, qL, k))
 //@   rowloop 0 i 0 r.level out=p1
 //@   rowassigns buff.Coeffs[1]
 //@   let q = r.SubRings[i].Modulus
